@@ -581,6 +581,31 @@ func (c *Ctx) ruleScalarEqual(cfg string) {
 		in.Store(site, args[0], w)
 		return nil
 	}
+	// the canonical encoding of a (reduced) scalar: 253 significant bits
+	canBytes := func(in *absint.Interp, site ssa.Instruction, recv absint.Val) *absint.Agg {
+		name := "?"
+		if pr, ok := recv.(absint.Ptr); ok && pr.Obj != nil {
+			name = pr.Obj.Name
+		}
+		arr := &absint.Agg{Elems: make([]absint.Val, 32)}
+		for i := range arr.Elems {
+			n := 8
+			if 8*i+8 > 253 {
+				n = 253 - 8*i
+			}
+			arr.Elems[i] = absint.BVSymPadded("can("+name+")", 8*i, n, 8)
+		}
+		return arr
+	}
+	d.Prims["(*Scalar).Bytes"] = func(in *absint.Interp, site ssa.Instruction, args []absint.Val) []absint.Val {
+		obj := in.NewObject("Bytes()", types.NewArray(types.Typ[types.Uint8], 32), canBytes(in, site, args[0]))
+		return []absint.Val{absint.SliceV{Obj: obj, Len: 32, Cap: 32}}
+	}
+	d.Prims["(*Scalar).bytes"] = func(in *absint.Interp, site ssa.Instruction, args []absint.Val) []absint.Val {
+		in.Store(site, args[1], canBytes(in, site, args[0]))
+		pr, _ := args[1].(absint.Ptr)
+		return []absint.Val{absint.SliceV{Obj: pr.Obj, Path: pr.Path, Len: 32, Cap: 32}}
+	}
 	in := absint.New(p, d)
 	t := p.Root.Members["Scalar"].Type()
 	mk := func(name string) absint.Ptr {
@@ -620,6 +645,26 @@ func (c *Ctx) ruleScalarEqual(cfg string) {
 	okArgs := len(subArgs) == 2 && ((subArgs[0] == "s" && subArgs[1] == "t") || (subArgs[0] == "t" && subArgs[1] == "s"))
 	o.OK = all && rest && okArgs
 	o.Detail = "Equal = ¬OR(all 256 bits of the four words of fiatScalarSub(s, t)) in bit 0, every other result bit 0: returns exactly 1 or 0, and 1 iff the (reduced, unique) difference is zero"
+	if !o.OK && rest && len(subArgs) == 0 {
+		// other exact forms: all bits of the two canonical encodings, or of the two (unique, reduced) representations, agree
+		for _, alt := range []struct {
+			src  string
+			n    int
+			text string
+		}{{"can(%s)", 253, "Equal = ¬OR_{k<253}(can(s)_k ⊕ can(t)_k): 1 exactly when the two canonical encodings (253 significant bits; Bytes is canonical by C08) agree in every bit, every other result bit 0"},
+			{"%s", 256, "Equal = ¬OR_{k<256}(s_k ⊕ t_k): 1 exactly when the two reduced representations (unique per value) agree in every bit, every other result bit 0"}} {
+			var want []string
+			for k := 0; k < alt.n; k++ {
+				want = append(want, absint.XorAtom(fmt.Sprintf(alt.src+":%d", "s", k), fmt.Sprintf(alt.src+":%d", "t", k)))
+			}
+			sort.Strings(want)
+			if b0.Equal(absint.Bit{Const: -1, Neg: true, Set: want}) {
+				o.OK, o.Detail = true, alt.text
+				c.Set.Add(o)
+				return
+			}
+		}
+	}
 	if !o.OK {
 		o.Detail = fmt.Sprintf("Equal's bit 0 is %s (needs the negated OR of all 256 difference bits), other bits zero: %v, operands of the subtraction: %v", b0, rest, subArgs)
 	}
